@@ -297,6 +297,9 @@ def oracle_mat(e, out):
     return
   pr = oracles.well_formed(out.model)
   e.check('C13.accepted_pair_yields_well_formed_model', not pr, info=pr[:3])
+  pr = oracles.qparams_prepareable(out.model)
+  e.check('C13.accepted_pair_yields_parameters_the_interpreter_builder_accepts',
+          not pr, info=pr[:3])
   pr = oracles.modes(out.input_model, out.model, P.resolver(out))
   e.check('C13.accepted_pair_runs_in_the_selected_mode', not pr, info=pr[:3])
   # the accepted operator really is quantized (not silently dropped)
@@ -408,7 +411,16 @@ def replay(c):
     out = P.Outcome()
     out.input_model, out.model, out.recipe_manager = inp, outm, \
         q._recipe_manager
-    pr = oracles.well_formed(outm) + oracles.modes(inp, outm, P.resolver(out))
+    pr = (oracles.well_formed(outm) + oracles.qparams_prepareable(outm) +
+          oracles.modes(inp, outm, P.resolver(out)))
+    if not pr:
+      # the real interpreter prepares and invokes the model
+      try:
+        from ai_edge_litert import interpreter as tfl
+        it = tfl.Interpreter(model_content=bytes(r.quantized_model))
+        it.allocate_tensors()
+      except Exception as ex:  # pylint: disable=broad-except
+        pr.append(f'interpreter refuses the model: {str(ex)[:100]}')
     if not pr and d.get('concretize') == 'unsat':
       return 'drop', 'spurious', ''
     return bool(pr), 'accepted pair: ' + re.sub(r"'[^']*'", 'T', ' | '.join(
